@@ -345,6 +345,128 @@ def rule_tables(prog, res):
         res.ob("Q-tab", "%s | signal ids fit the 5-bit field" % num, all(0 <= k <= 31 for k in ts), str(sorted(ts)))
 
 
+def _const_table(prog, t):
+    """elements of a constant array of integer tuples referenced by a term `&*opaque_const(.., promoted)`; [(v0, v1, ..), ..] or None"""
+    x = t
+    while x.op in ("ref", "mem", "memval"):
+        x = x.args[0]
+    if x.op != "opaque_const":
+        return None
+    name = str(x.args[-1])
+    pr = prog.promoted.get(name)
+    rec = pr if isinstance(pr, dict) else getattr(pr, "rec", None)
+    cname = None
+    if rec:
+        for st in rec["blocks"][0]["stmts"]:
+            if st["k"] == "assign" and st["rv"]["k"] == "use" and st["rv"]["op"].get("k") == "const" and st["rv"]["op"].get("s") in prog.constbodies:
+                cname = st["rv"]["op"]["s"]
+    elif name in prog.constbodies:
+        cname = name
+    if cname is None:
+        return None
+    cb = prog.constbodies[cname]
+    cb = cb if isinstance(cb, dict) else cb.rec
+    if len(cb["blocks"]) != 1:
+        return None
+    env = {}
+    out = None
+    for st in cb["blocks"][0]["stmts"]:
+        if st["k"] != "assign" or st["place"]["proj"] or st["rv"]["k"] != "aggregate":
+            continue
+        rv = st["rv"]
+        if rv.get("agg") == "tuple" and all(o["k"] == "const" and "val" in o for o in rv["ops"]):
+            env[st["place"]["local"]] = tuple(o["val"] for o in rv["ops"])
+        elif rv.get("agg") == "array" and st["place"]["local"] == 0:
+            els = []
+            for o in rv["ops"]:
+                if o["k"] in ("move", "copy") and not o["place"]["proj"] and o["place"]["local"] in env:
+                    els.append(env[o["place"]["local"]])
+                else:
+                    return None
+            out = els
+    return out
+
+
+def _enc_table_idiom(prog, fe, ea):
+    """Second way of writing the 1230 mask: a constant table of (band, attribute) searched with position(|&s| s == (band(), attribute())), the bit
+    being C >> index (or 1 << (n-1-index)).  Returns {(band, attr): bit} or {} if the encoder is not written like that."""
+    pos = [(b, t) for b, t in fe.calls() if (callee_of(t) or "").endswith("Iterator>::position")]
+    if len(pos) != 1:
+        return {}
+    pb, pt = pos[0]
+    pa = ea.call_args(pb)
+    src = libmodel.iterator_source(ea.call_term(pb), ea)
+    table = None
+    if src is not None:
+        x = src[0]
+        while x.op == "call" and x.args[0] in (libmodel.INTO_ITER, "core::slice::<impl [T]>::iter") and x.args[1]:
+            if x.args[0] == "core::slice::<impl [T]>::iter":
+                table = _const_table(prog, x.args[1][0])
+            x = x.args[1][0]
+    if not table or len(table) > 8 or any(len(e) != 2 for e in table):
+        return {}
+    # the predicate: |&s| s == sig with sig = (signal_id.band(), signal_id.attribute())
+    clo = pa[1]
+    if not (clo.op == "closure" and clo.args[0] in prog.fns and len(clo.args[1]) == 1):
+        return {}
+    cap = clo.args[1][0]
+    while cap.op in ("ref", "mem", "memval"):
+        cap = cap.args[0]
+    if cap.op == "loc":
+        cap = ea.val(cap.args[1], (pb, 0))
+    if not (cap.op == "tuple" and len(cap.args[0]) == 2 and cap.args[0][0].op == "call" and cap.args[0][0].args[0].endswith("::SigId::band")
+            and cap.args[0][1].op == "call" and cap.args[0][1].args[0].endswith("::SigId::attribute")):
+        return {}
+    cf = prog.fn(clo.args[0])
+    ca = FA(cf, prog)
+    rets = cf.return_blocks()
+    if len(rets) != 1:
+        return {}
+    rv = ca.end_val(0, rets[0])
+    if not (rv.op == "call" and rv.args[0].startswith("core::tuple::<impl core::cmp::PartialEq for (") and rv.args[0].endswith(">::eq") and len(rv.args[1]) == 2):
+        return {}
+    def root(y):
+        while y.op in ("ref", "mem", "memval"):
+            y = y.args[0]
+        if y.op == "loc":
+            y = ca.val(y.args[1], (rets[0], 10 ** 6))
+            while y.op in ("ref", "mem", "memval"):
+                y = y.args[0]
+        return y
+    sides = [root(rv.args[1][0]), root(rv.args[1][1])]
+    is_item = lambda y: y.op == "arg" and y.args[1] == 2
+    is_cap = lambda y: (y.op == "pf" and y.args[1] == 0) or (y.op == "field" and y.args[1] == 0) or (y.op == "arg" and y.args[1] == 1)
+    if not ((is_item(sides[0]) and is_cap(sides[1])) or (is_item(sides[1]) and is_cap(sides[0]))):
+        return {}
+    idx = mk("field", mk("downcast", ea.call_term(pb), 1), 0)
+    enc = {}
+    for b in sorted(fe.reachable()):
+        for i, s_ in enumerate(fe.blocks[b]["stmts"]):
+            if s_["k"] == "assign" and s_["rv"]["k"] == "binop" and s_["rv"]["op"] == "BitOr":
+                v = ea.rv_term(s_["rv"], (b, i))
+                bit = v.args[2]
+                while bit.op == "cast":
+                    bit = bit.args[1]
+                if not fe.dominates(pb, b):
+                    return {}
+                def payload(y):
+                    # the Some payload of the position result, possibly through the `ok_or(..)?` plumbing
+                    while y.op == "cast":
+                        y = y.args[1]
+                    return y is idx or (y.op == "field" and y.args[1] == 0 and y.args[0].op == "downcast" and y.args[0].args[0] is ea.call_term(pb))
+                for k, (bnd, att) in enumerate(table):
+                    if bit.op == "bin" and bit.args[0] == "Shr" and is_const(bit.args[1]) and payload(bit.args[2]):
+                        enc[(bnd, att)] = const_val(bit.args[1]) >> k
+                    elif bit.op == "bin" and bit.args[0] == "Shl" and is_const(bit.args[1]):
+                        la, lc = lin(bit.args[2])
+                        if len(la) == 1 and list(la)[0][1] == -1 and payload(list(la)[0][0]):
+                            enc[(bnd, att)] = const_val(bit.args[1]) << (lc - k)
+                    else:
+                        return {}
+    return enc
+
+
+
 def rule_1230(prog, res):
     """Q-1230: mask bits <-> signals, fixed order, capacity 4."""
     mod = "df::dfs::df_msg1230_biases"
@@ -387,6 +509,8 @@ def rule_1230(prog, res):
                                 attr = gd[2]
                 if band is not None and attr is not None:
                     enc[(band, attr)] = bitv
+    if not enc:
+        enc = _enc_table_idiom(prog, fe, ea)
     da = FA(fd, prog)
     dec = {}
     for b in sorted(fd.reachable()):
